@@ -268,10 +268,13 @@ def run(tier):
         terms, used = [], []
         for i in idx:
             try:
-                terms.append(interp.run_term(cases[i], impl[i], impl[i]['model'], fuel=8000))
-                used.append(i)
+                t = interp.run_term(cases[i], impl[i], impl[i]['model'], fuel=8000)
             except (interp.Unencodable, ValueError):
-                pass
+                continue
+            if len(t) > 60000:
+                continue            # a program that doubles a string at every level of a recursion: its values are too large to write as a Coq literal
+            terms.append(t)
+            used.append(i)
         codes, errors = core.coq_codes('c04', interp.IMPORTS, terms, shard=40)
         corr_n = len(used)
         for k, log in errors:
